@@ -132,7 +132,8 @@ func (c *config) rewrite(node ast.Node) (ast.Node, error) {
 
 		// Now we make updates
 		for _, f := range x.Fields.List {
-			if c.excludePrivate {
+			// Embedded fields have no names
+			if c.excludePrivate && len(f.Names) > 0 {
 				r, _ := utf8.DecodeRuneInString(f.Names[0].Name)
 				if unicode.IsLower(r) {
 					continue
